@@ -405,7 +405,26 @@ func gen(kind string) func(t *rapid.T) Case {
 			return rapid.SliceOfN(rapid.IntRange(0, hi), minN, maxN).Draw(t, label)
 		}
 		c.A, c.ARem = vals("a", maxA), vals("arem", 3)
-		if rapid.IntRange(0, 7).Draw(t, "same") == 0 {
+		huge := rapid.IntRange(0, 499).Draw(t, "ladder") == 211
+		if huge {
+			// both operands past 4096 elements (merge walks, bulk paths): arithmetic
+			// progressions that overlap in part
+			hi = 12000
+			c.Hi = hi
+			n, b0 := rapid.IntRange(4100, 5200).Draw(t, "ladder-n"), rapid.IntRange(0, 3000).Draw(t, "ladder-b0")
+			c.A = c.A[:0]
+			for i := 0; i < n; i++ {
+				c.A = append(c.A, i*2)
+			}
+			c.B = nil
+			for i := 0; i < n; i++ {
+				c.B = append(c.B, b0+i*2-(i%3))
+			}
+			c.Same = false
+		}
+		if huge {
+			c.BRem = vals("brem", 3)
+		} else if rapid.IntRange(0, 7).Draw(t, "same") == 0 {
 			c.Same = true
 		} else {
 			c.B, c.BRem = vals("b", maxB), vals("brem", 3)
